@@ -298,6 +298,8 @@ class ProblemParser:
 
         :return: the problem object.
         """
+        # every call builds a problem of its own (a second call must not add to the result of the first).
+        self.problem = Problem(self.domain)
         problem_expression = self.tokenizer.parse()
         if problem_expression[0] != "define":
             raise SyntaxError(
